@@ -803,6 +803,10 @@ class TreeRun:
                 if got is None or got.shape != given[key].shape or not np.array_equal(np.asarray(got, dtype=float), np.asarray(given[key], dtype=float)):
                     self.fail("C01", "created-geometry", "object", op["cls"], key, f"{key} given {given[key].tolist()} got {None if got is None else got.tolist()}")
         wd.adopt(uid, node, "object")
+        for child in getattr(new, "children", []):
+            # children the constructor itself creates (the file data of a GeoImage)
+            if hasattr(child, "entity_type") and str(child.uid) not in wd.nodes:
+                wd.adopt(str(child.uid), snap_entity(child), "data")
         del new, parent
         if deferred:
             self.flush_deferred()
@@ -888,8 +892,11 @@ class TreeRun:
 
     def op_values(self, op):
         wd = self.w
+        # (depth logs of plain drillholes follow their DEPTH data - re-sorting, padding: C18's subject - not assigned here)
         cands = [u for u in wd.of_kind("data") if wd.nodes[u]["cls"] in
-                 ("FloatData", "IntegerData", "BooleanData", "ReferencedData", "TextData")]
+                 ("FloatData", "IntegerData", "BooleanData", "ReferencedData", "TextData")
+                 and not (wd.nodes.get(wd.nodes[u]["parent"], {}).get("cls") == "Drillhole"
+                          and wd.nodes[u]["association"].split(":")[1] in ("VERTEX", "CELL"))]
         uid = self.pick(cands, op["data"])
         if uid is None:
             return False
